@@ -550,7 +550,7 @@ def _path(st, limit=12):
         -limit:]
 
 
-def analyse_writers(program, rep):
+def analyse_writers(program, rep, only=None, prefix='C01'):
     world = program.cls('World')
     results = {}
     problems = []
@@ -606,7 +606,7 @@ def analyse_writers(program, rep):
 
     for c in [world] + program.subclasses(world):
         for m in c.methods.values():
-            if m.kind == 'method':
+            if m.kind == 'method' and (only is None or m.name in only):
                 analyse(m, c)
     # A private helper that performs one half of a paired update (its own
     # analysis reports a discrepancy) is judged in the context of its
@@ -627,7 +627,8 @@ def analyse_writers(program, rep):
                                             key=lambda kv: (kv[0][1],
                                                             kv[0][3] or 0,
                                                             kv[0][2])):
-        rname = 'C01.' + rule
+        rname = 'C01.' + rule if prefix == 'C01' else \
+            f'{prefix}.teardown-{rule}'
         if r['bad']:
             b = r['bad'][0]
             rep.bad(rname, site_of(fn), text, b['why'],
@@ -642,9 +643,10 @@ def analyse_writers(program, rep):
             rep.ok(rname, site_of(fn), text,
                    f'holds on all {r["ok"]} paths', line=line)
     for fn, node, why in problems:
-        rep.inconclusive('C01.pair', site_of(fn), node, why,
+        rep.inconclusive(f'{prefix}.pair', site_of(fn), node, why,
                          line=getattr(node, 'lineno', None))
-    rep.floor('C01.pair', 'World methods writing the tables', nwriters, 5)
+    if only is None:
+        rep.floor('C01.pair', 'World methods writing the tables', nwriters, 5)
 
 
 # ---------------------------------------------------------------------------
